@@ -764,7 +764,15 @@ func (p *pkg) gatewayFacts() {
 		needsName = strings.Contains(t, `ifctx.OperationName==""{`)
 		byName = strings.Contains(t, "plans.ForOperation(ctx.OperationName)")
 	}
-	emit("def opSelect : OpSelectFacts := { singleUsesOnly := %s, emptyNameRejected := %s, selectsByName := %s }", leanBool(single), leanBool(needsName), leanBool(byName))
+	nameMatches := false
+	if ex != nil {
+		t := p.norm(ex.Body)
+		nameMatches = strings.Contains(t, `iflen(plans)==1&&(ctx.OperationName==""||plans[0].Operation==nil||plans[0].Operation.Name==ctx.OperationName){`)
+		if nameMatches {
+			single = true
+		}
+	}
+	emit("def opSelect : OpSelectFacts := { singleUsesOnly := %s, emptyNameRejected := %s, selectsByName := %s, onlyIfNameMatches := %s }", leanBool(single), leanBool(needsName), leanBool(byName), leanBool(nameMatches))
 
 	// request middlewares handed to queryers before each call
 	reqMw := false
